@@ -81,6 +81,7 @@ func menu(genesisCoinbase common.Uint256) (*menuT, interfaces.Transaction) {
 		sk.Out(addrA, 1000), sk.Out(addrA, 1000), sk.Out(addrB, 1000), sk.Out(addrC, 1000),
 		sk.Out(addrA, 500), sk.Out(addrA, 1000), sk.Out(addrA, 1000), sk.Out(addrB, 0),
 		sk.Out(addrA, 1000), sk.Out(addrB, 1000), sk.Out(addrC, 1000), sk.Out(addrA, 1000),
+		sk.Out(addrC, 900),
 	}
 	m.fund = sk.Transfer(0xf0, ins(genesisCoinbase, 0), fo)
 	f := m.fund.Hash()
@@ -123,6 +124,11 @@ func menu(genesisCoinbase common.Uint256) (*menuT, interfaces.Transaction) {
 	// share of split and a funding output) while other outputs of it stay at both heights
 	add(&op{name: "twoheights", txs: one(sk.Transfer(23, append(ins(t1.Hash(), 2), ins(f, 11)...), outs(sk.Out(addrC, 1100)))), needs: []string{"split"}, miner: addrC})
 
+	// more than 256 outputs in one transaction, and a spend of outputs 7 and 263
+	big := sk.FanOut(24, ins(f, 12), addrB, 300, 3)
+	add(&op{name: "big300", txs: one(big), miner: addrC})
+	add(&op{name: "bigspend", txs: one(sk.Transfer(25, ins(big.Hash(), 7, 263), outs(sk.Out(addrC, 6)))), needs: []string{"big300"}, miner: addrA})
+
 	m.addrs = []common.Uint168{addrA, addrB, addrC}
 	m.txids = []common.Uint256{genesisCoinbase, f, fundCb.Hash()}
 	for _, o := range m.ops {
@@ -138,7 +144,7 @@ func (m *menuT) enabled(path []string, name string) bool {
 	for _, p := range path {
 		on[p] = true
 	}
-	if name != "empty" && on[name] {
+	if on[name] {
 		return false
 	}
 	for _, n := range m.by[name].needs {
